@@ -162,11 +162,11 @@ class Monitor:
                 self.violation = ("cache-backend-called-without-request", {"method": m, "backend": cls})
 
 
-def _markers(x):
-    if isinstance(x, str):
-        return [x] if x.startswith("pv") else []
-    if isinstance(x, (tuple, list)):
-        return [m for y in x for m in _markers(y)]
+def _markers(frozen_kw):
+    """Marker constants among the POSITIONAL arguments of a stub call (not inside values: those may come out of a cache)."""
+    for item in frozen_kw[1:]:
+        if item[0] == "args":
+            return [x for x in item[1] if isinstance(x, str) and x.startswith("pv")]
     return []
 
 
